@@ -624,6 +624,33 @@ func TestVerifC10Race(t *testing.T) {
 		if err := c10Settle(sys, ws); err != nil && out.Err == "" {
 			out.Err = err.Error()
 		}
+		// A watcher that must be told (its Watch completed before the stop began and it never unwatched) may still have
+		// its Terminated in flight when the settle heuristic returns (seen once on a cold machine): give those
+		// notifications a bounded extra wait before counting, so only a notification that never arrives is reported.
+		if out.Err == "" {
+			extra := time.Now().Add(3 * time.Second)
+			for time.Now().Before(extra) {
+				missing := false
+				for i, cl := range c10Classes {
+					if cl != "pre" && cl != "pretwice" && cl != "rewatch" {
+						continue
+					}
+					got := false
+					for _, nm := range was[i].terminated() {
+						if nm == targetName {
+							got = true
+						}
+					}
+					if !got {
+						missing = true
+					}
+				}
+				if !missing {
+					break
+				}
+				time.Sleep(2 * time.Millisecond)
+			}
+		}
 		for i, cl := range c10Classes {
 			rw := c10RaceWatcher{Class: cl}
 			for _, nm := range was[i].terminated() {
